@@ -154,7 +154,7 @@ def g_assign(r):
     d.update({"target": r.choice(["sp", "sp", "sp", "cell", "notes", "ph"]),
               "level": r.choice(["frame", "frame", "para", "para", "run", "shape"]),
               "para": r.randint(0, 4), "run": r.randint(0, 3), "r": r.randint(0, 4), "c": r.randint(0, 4),
-              "text": gen_text(r)})
+              "text": gen_text(r), "same": r.random() < 0.12})
     return d
 
 
@@ -185,6 +185,19 @@ def _assign(w, deck, a):
         key = ("sp", sl.slide_id, sh.shape_id)
     _check_persist(w, deck, key, tf, "before-next-assignment")
     pre = _reading(tf)
+    if a.get("same"):
+        # idempotent re-assignment: assign exactly the string this level currently reads
+        if level in ("frame", "shape"):
+            text = tf.text
+        elif level == "para":
+            text = tf.paragraphs[a["para"] % len(tf.paragraphs)].text
+        else:
+            cands0 = [(i, j) for i, p in enumerate(tf.paragraphs) for j, _ in enumerate(p.runs)]
+            if not cands0:
+                raise O.Skip("no runs")
+            i0, j0 = cands0[(a["para"] * 4 + a["run"]) % len(cands0)]
+            text = tf.paragraphs[i0].runs[j0].text
+        w.stats.hit("c04_reassign_same")
     try:
         if level in ("frame", "shape"):
             if level == "shape" and holder is not None:
@@ -419,4 +432,13 @@ def pinned_traces(tier):
             evs.append({"op": "restart", "form": "path"})
             out.append({"property": ID, "seed": "probes-%s-%s" % (lvl, tgt), "tier": "pinned", "config": {"pinned": True},
                         "start": [{"deck": "default"}], "events": evs})
+    for tgt in ("sp", "cell"):
+        evs = list(base) + [
+            {"op": "c04.assign", "slide": 0, "shape": 0, "target": tgt, "level": "frame", "para": 0, "run": 0, "r": 0, "c": 0, "text": "seed"},
+            {"op": "c04.assign", "slide": 0, "shape": 0, "target": tgt, "level": "run", "para": 0, "run": 0, "r": 0, "c": 0, "text": "first\nsecond\vthird"},
+            {"op": "c04.assign", "slide": 0, "shape": 0, "target": tgt, "level": "frame", "para": 0, "run": 0, "r": 0, "c": 0, "text": "", "same": True},
+            {"op": "c04.assign", "slide": 0, "shape": 0, "target": tgt, "level": "para", "para": 0, "run": 0, "r": 0, "c": 0, "text": "", "same": True},
+            {"op": "c04.assign", "slide": 0, "shape": 0, "target": tgt, "level": "run", "para": 0, "run": 0, "r": 0, "c": 0, "text": "", "same": True},
+            {"op": "checkpoint", "sink": "seekable"}, {"op": "restart"}]
+        out.append({"property": ID, "seed": "reassign-same-%s" % tgt, "tier": "pinned", "config": {"pinned": True}, "start": [{"deck": "default"}], "events": evs})
     return out
